@@ -1292,7 +1292,9 @@ fn c07m(seed: u64, cases: usize, model_path: &str) -> serde_json::Value {
     // with its own id. In the protocol as written the values are sent only after all commitments have been delivered, so the peer's commitment is to
     // its own (different) value and its opening is refused; a round that reveals a value before the peer's commitment has arrived binds nobody.
     // Message formats are recognised by element size (32: commitments, 16: values, 48: both together).
-    for victim in [0usize, 1] { let n = 2usize; let adv = 1 - victim;
+    // second variant (`void`): instead of re-committing, the peer VOIDS the commitments of the round (every digest shrunk to zero length, the element count kept)
+    // in both directions and echoes the opened values: a commitment check that compares only as many bytes as it was given binds nobody.
+    for void in [false, true] { for victim in [0usize, 1] { let n = 2usize; let adv = 1 - victim;
         let insts: Vec<Inst> = (0..n).map(|p| Inst { out: Reg(p as u32), op: Op::Input(Input { party: p as u32, input: 0 }) }).chain(std::iter::once(Inst { out: Reg(n as u32), op: Op::And(And(Reg(0), Reg(1))) })).collect();
         let c = Circuit { input_regs: vec![1; n], insts, max_reg_count: n + 1, output_regs: vec![Reg(n as u32)], and_ops: 1 };
         let args: Vec<PartyArgs> = (0..n).map(|p| PartyArgs { inputs: vec![r.bool()], p_eval: 0, p_own: p, p_out: (0..n).collect(), tmp_dir: None }).collect();
@@ -1307,17 +1309,19 @@ fn c07m(seed: u64, cases: usize, model_path: &str) -> serde_json::Value {
         let seen: std::rc::Rc<std::cell::RefCell<std::collections::HashSet<(usize, String)>>> = Default::default();
         exec::set_recv_rewrite(Some(Box::new(move |at, from, p, d| { if !p.starts_with("flaand ") || d.len() < 8 || !seen.borrow_mut().insert((at, p.to_string())) { return d; }
             // both copies of the code are served the same way (the peer's own copy would otherwise notice its own lie and stop)
+            if void { let k = u64::from_le_bytes(d[..8].try_into().unwrap()) as usize; if k > 0 && (d.len() - 8) % k == 0 { match (d.len() - 8) / k { 32 => { return (k as u64).to_le_bytes().to_vec(); } 40 => { let mut v = (k as u64).to_le_bytes().to_vec(); v.extend(std::iter::repeat(0u8).take(8 * k)); return v; } _ => {} } } }
             let Some(h) = hs2.borrow().get(&at).cloned() else { return d; };
             let k = u64::from_le_bytes(d[..8].try_into().unwrap()) as usize; if k != h.len() { return d; }
             let commit = |x: u128| -> [u8; 32] { let mut b = x.to_be_bytes().to_vec(); b.extend((from as u16).to_be_bytes()); *blake3::hash(&b).as_bytes() };
             if at == victim { u2.set(u2.get() + 1); }
-            match (d.len() - 8) / k { 32 => ser(&h.iter().map(|x| commit(*x)).collect::<Vec<_>>()), 16 => ser(&h), 48 => ser(&h.iter().map(|x| (commit(*x), *x)).collect::<Vec<_>>()), _ => d } })));
+            match (d.len() - 8) / k { 32 if void => (k as u64).to_le_bytes().to_vec(), 40 if void => { let mut v = (k as u64).to_le_bytes().to_vec(); v.extend(std::iter::repeat(0u8).take(8 * k)); v }
+                32 => ser(&h.iter().map(|x| commit(*x)).collect::<Vec<_>>()), 16 => ser(&h), 48 => ser(&h.iter().map(|x| (commit(*x), *x)).collect::<Vec<_>>()), _ => d } })));
         let run = exec::run(&c, &args, &RunCfg { cap: 1024, sched: Sched::RoundRobin, keep_payloads: false }, Some(m)); execs += 1; exec::set_recv_rewrite(None);
-        if !lied.get() || used.get() == 0 { continue; }
-        let o = &run.outs[victim]; distinct.insert((n, false, 100 + victim));
-        let pre_err = match o { Out::Err(e) => e.contains("XorNotZero") || e.contains("CommitmentCouldNotBeOpened"), _ => false };
+        if !lied.get() || (used.get() == 0 && !void) { continue; }
+        let o = &run.outs[victim]; distinct.insert((n, void, 100 + victim));
+        let pre_err = match o { Out::Err(e) => e.contains("XorNotZero") || e.contains("CommitmentCouldNotBeOpened") || (void && e.contains("flaand comm")), _ => false };
         if !pre_err { failures.push(json!({"property": "C07", "witness": "C07:laand-e-lie-leak-undetected", "failure": format!("a rushing peer lied about an e bit and presented the victim's own check value under a fresh commitment: the victim raised no error of its own although the value it opened, XORed with the peer's, is its global key: {}", short(o)), "victim": victim})); }
-    }
+    } }
     // ---- leaky-AND: a peer lies about its (unauthenticated) `e` bits in `flaand`; the victim then opens its check value H in `flaand hash`.
     // Pooling what the victim sent with what the peer holds: does H_victim[j] ^ H_peer[j] equal the victim's global key?
     for (lie, positions) in [("one-e-bit", vec![0usize]), ("two-e-bits-one-bucket", vec![0usize, 1]), ("none", vec![])] { for rep in 0..2 {
@@ -1380,7 +1384,7 @@ fn c10l(seed: u64, cases: usize, model_path: &str) -> serde_json::Value {
     std::panic::set_hook(Box::new(|_| {}));
     let mut r = Rng::new(seed); let mut m = Model::spawn(model_path).expect("spawn ptmodel"); let mut disagreements = vec![]; let mut failures = vec![]; let mut samples = vec![]; let mut distinct = std::collections::BTreeSet::new(); let mut execs = 0u64; let mut compared = 0u64;
     let hexl = |v: &[u128]| if v.is_empty() { "-".to_string() } else { v.iter().map(|x| format!("{x:x}")).collect::<Vec<_>>().join(",") };
-    let (mut pad_total, mut pad_equal) = (0u64, 0u64);
+    let (mut pad_total, mut pad_equal) = (0u64, 0u64); let mut cross_total = 0u64;
     for _case in 0..cases { let n = r.range(2, 3) as usize; let g = r.range(2, 6) as usize; let a = r.range(1, 3.min(g as u64)) as usize; let (c, feat) = circ::generate(&mut r, n, g, a); if feat.ands == 0 { continue; }
         let inputs: Vec<Vec<bool>> = c.input_regs.iter().map(|k| (0..*k).map(|_| r.bool()).collect()).collect();
         let args: Vec<PartyArgs> = (0..n).map(|p| PartyArgs { inputs: inputs[p].clone(), p_eval: 0, p_own: p, p_out: vec![0], tmp_dir: None }).collect();
@@ -1395,6 +1399,14 @@ fn c10l(seed: u64, cases: usize, model_path: &str) -> serde_json::Value {
         if n >= 3 { for p in 0..n { let pads: Vec<&Vec<u128>> = taps.iter().filter(|t| t.0 == "haand_s" && t.1 == p).map(|t| &t.2).collect();
             for a in 0..pads.len() { for b in a + 1..pads.len() { if pads[a][0] != pads[b][0] { let k = pads[a].len().min(pads[b].len());
                 pad_total += (k - 1) as u64; pad_equal += (1..k).filter(|i| pads[a][*i] == pads[b][*i]).count() as u64; } } } } }
+        // C06 (three parties and more): what a party holds towards two DIFFERENT peers must be independent. If its OT sessions with two peers share their
+        // local randomness, its MACs under the two peers' keys coincide and the peers' keys for its bit coincide exactly when the bit is 0: pooling
+        // their keys the two peers read the party's mask shares. (Honest collisions have probability 2^-128 per position.)
+        if n >= 3 { let w = 1 + 2 * n; let fl: Vec<Vec<u128>> = (0..n).map(|p| get("beaver_abc", p)).collect(); let cnt = fl[0].len() / w;
+            'outer: for i in 0..n { for a in 0..n { for b in a + 1..n { if a == i || b == i { continue; }
+                let mac_eq = (0..cnt).filter(|k| fl[i][k * w + 1 + 2 * a] == fl[i][k * w + 1 + 2 * b]).count(); let key_eq = (0..cnt).filter(|k| fl[a].get(k * w + 2 + 2 * i) == fl[b].get(k * w + 2 + 2 * i)).count();
+                cross_total += cnt as u64;
+                if mac_eq + key_eq > 0 { failures.push(json!({"property": "C06", "witness": "C06:cross-peer-collision", "failure": format!("party {i}: of {cnt} authenticated shares, its MACs under the keys of peers {a} and {b} are equal at {mac_eq} positions and the two peers' keys for its bit are equal at {key_eq} positions (the peers can tell its bit from whether their keys agree)"), "case": json!({"n": n, "circuit": circ::to_line(&c)})})); break 'outer; } } } } }
         let mut req = format!("laand n={n} lp={lp} delta={}", hexl(&deltas));
         for p in 0..n { req += &format!(" xyz{p}={}", hexl(&get("beaver_abc", p)));
             for t in taps.iter().filter(|t| t.0 == "haand_s" && t.1 == p) { req += &format!(" s{p}_{}={}", t.2[0], t.2[1..].iter().map(|x| if *x != 0 { '1' } else { '0' }).collect::<String>()); } }
@@ -1409,8 +1421,132 @@ fn c10l(seed: u64, cases: usize, model_path: &str) -> serde_json::Value {
         if !bad.is_empty() || !resp.starts_with("laand ") { disagreements.push(json!({"differences": bad, "n": n, "leaky_triples": lp, "resp_head": resp.chars().take(60).collect::<String>()})); } else if samples.len() < 2 { samples.push(json!({"n": n, "leaky_triples": lp, "tokens": resp.split_whitespace().count() - 1})); }
     }
     if pad_total >= 64 && pad_equal == pad_total { failures.push(json!({"property": "C06", "witness": "C06:haand-pads-shared", "failure": format!("the half-AND blinding bits a party used for two different receivers were equal at all {pad_total} compared positions: two receivers together can unblind the party's private bits")})); }
-    let mut dist: BTreeMap<String, u64> = BTreeMap::new(); dist.insert("haand_pad_positions_compared_across_receivers".into(), pad_total); dist.insert("haand_pad_positions_equal".into(), pad_equal);
+    let mut dist: BTreeMap<String, u64> = BTreeMap::new(); dist.insert("haand_pad_positions_compared_across_receivers".into(), pad_total); dist.insert("haand_pad_positions_equal".into(), pad_equal); dist.insert("cross_peer_share_positions_compared".into(), cross_total);
     json!({"executions": execs, "messages_and_share_vectors_compared": compared, "distinct_nontrivial": distinct.len(), "distribution": dist, "samples": samples, "model_disagreements": disagreements, "impl_vs_oracle_failures": failures, "model_requests": m.requests})
+}
+
+/// C10d — the trusted-dealer provider: `n` parties run `mpc` with `Preprocessor::TrustedDealer(n)`, party `n` runs `fpre` (hooks `mpc_with_dealer`,
+/// `fpre_dealer`). Everything the dealer hands out is decoded from the wire: every random share and every AND share must satisfy the
+/// authenticated-share relation for every ordered pair, the AND shares must share (⊕a)∧(⊕b) of the requested pairs, the macs must be what the
+/// Lean `dealerShare` computes from the decoded bits, keys and deltas, and the computation's outputs are the clear-text result.
+struct SendCh<'a>(&'a exec::Ch);
+unsafe impl Send for SendCh<'_> {}
+unsafe impl Sync for SendCh<'_> {}
+impl polytune::channel::Channel for SendCh<'_> {
+    type SendError = exec::Closed; type RecvError = exec::Closed;
+    async fn send_bytes_to(&self, p: usize, d: Vec<u8>, ph: &str) -> Result<(), exec::Closed> { self.0.send_bytes_to(p, d, ph).await }
+    async fn recv_bytes_from(&self, p: usize, ph: &str) -> Result<Vec<u8>, exec::Closed> { self.0.recv_bytes_from(p, ph).await }
+}
+fn dec_share(d: &[u8], pos: &mut usize) -> Option<(bool, Vec<(u128, u128)>)> {
+    let bit = *d.get(*pos)? != 0; *pos += 1; let m = u64::from_le_bytes(d.get(*pos..*pos + 8)?.try_into().ok()?) as usize; *pos += 8; let mut v = vec![];
+    for _ in 0..m { let a = u128::from_le_bytes(d.get(*pos..*pos + 16)?.try_into().ok()?); let b = u128::from_le_bytes(d.get(*pos + 16..*pos + 32)?.try_into().ok()?); *pos += 32; v.push((a, b)); }
+    Some((bit, v))
+}
+fn dec_shares(d: &[u8], pairs: bool) -> Option<Vec<Vec<(bool, Vec<(u128, u128)>)>>> {
+    let k = u64::from_le_bytes(d.get(..8)?.try_into().ok()?) as usize; let mut pos = 8; let mut out = vec![];
+    for _ in 0..k { let mut e = vec![dec_share(d, &mut pos)?]; if pairs { e.push(dec_share(d, &mut pos)?); } out.push(e); }
+    if pos == d.len() { Some(out) } else { None }
+}
+fn c10d(seed: u64, cases: usize, model_path: &str) -> serde_json::Value {
+    use polytune::verif as v;
+    std::panic::set_hook(Box::new(|_| {}));
+    let mut r = Rng::new(seed); let mut m = Model::spawn(model_path).expect("spawn ptmodel");
+    let mut dist: BTreeMap<String, u64> = BTreeMap::new(); let mut distinct = std::collections::BTreeSet::new(); let mut failures = vec![]; let mut disagreements = vec![]; let mut samples = vec![]; let mut execs = 0u64; let mut shares_checked = 0u64;
+    for case in 0..cases {
+        let n = match case % 4 { 0 => 2, 1 => 3, 2 => 2, _ => r.range(3, 5) as usize };
+        let (c, feat) = if case % 7 == 6 { let a = 40 + r.below(30) as usize; (circ::and_chain(n, a), circ::Features { ands: a, ..Default::default() }) } else { let g = r.range(1, 14) as usize; let a = r.below(g as u64 + 1) as usize; circ::generate(&mut r, n, g, a) };
+        let p_eval = r.below(n as u64) as usize; let mut p_out: Vec<usize> = (0..n).filter(|_| r.bool()).collect(); if p_out.is_empty() { p_out.push(r.below(n as u64) as usize); }
+        let inputs: Vec<Vec<bool>> = c.input_regs.iter().map(|k| (0..*k).map(|_| r.bool()).collect()).collect();
+        let (net, chs) = exec::new_net(n + 1, [1usize, 2, 1024][r.below(3) as usize]); net.borrow_mut().payloads = Some(vec![]);
+        let sc: Vec<SendCh> = chs.iter().map(SendCh).collect();
+        let futs: Vec<std::pin::Pin<Box<dyn std::future::Future<Output = Result<Vec<bool>, String>>>>> = (0..=n).map(|i| { let (ch, c, inputs, p_out) = (&sc[i], &c, &inputs, &p_out);
+            Box::pin(async move { if i == n { v::fpre_dealer(ch, n).await.map(|_| vec![]) } else { v::mpc_with_dealer(ch.0, c, &inputs[i], n, p_eval, i, p_out).await.map_err(|e| format!("{e:?}")) } }) as std::pin::Pin<Box<dyn std::future::Future<Output = _>>> }).collect();
+        let outs = exec::poll_all(futs, &net); execs += 1; drop(sc);
+        let payloads = net.borrow_mut().payloads.take().unwrap_or_default();
+        let oracle = c.eval(&inputs);
+        let desc = json!({"case": case, "n": n, "dealer": n, "p_eval": p_eval, "p_out": p_out, "circuit": circ::to_line(&c), "inputs": inputs.iter().map(|x| circ::bits(x)).collect::<Vec<_>>()});
+        *dist.entry(format!("n:{n}")).or_default() += 1; *dist.entry(format!("ands:{}", match feat.ands { 0 => "0", 1..=9 => "1-9", _ => ">=10" })).or_default() += 1; distinct.insert((circ::to_line(&c), p_eval, p_out.clone()));
+        let mut bad: Vec<String> = vec![];
+        for p in 0..n { let want = if p_out.contains(&p) { oracle.clone() } else { vec![] }; match &outs[p] { Some(Ok(o)) if *o == want => {}, other => bad.push(format!("party {p}: got {}, want Ok({})", format!("{other:?}").chars().take(120).collect::<String>(), circ::bits(&want))) } }
+        if !matches!(outs[n], Some(Ok(_))) { bad.push(format!("the dealer ended with {:?}", outs[n])); }
+        // decode the dealer's traffic
+        let from_dealer = |ph: &str, p: usize| payloads.iter().find(|(f, t, h, _)| *f == n && *t == p && h == ph).map(|x| x.3.clone());
+        let deltas: Vec<Option<u128>> = (0..n).map(|p| from_dealer("delta (fpre)", p).and_then(|d| if d.len() == 24 { Some(u128::from_le_bytes(d[8..24].try_into().unwrap())) } else { None })).collect();
+        if deltas.iter().any(|d| d.is_none()) { bad.push("a delta message of the dealer is missing or malformed".into()); }
+        else { let deltas: Vec<u128> = deltas.into_iter().map(|d| d.unwrap()).collect();
+            for (ph, is_and) in [("random shares (fpre)", false), ("AND shares (fpre)", true)] {
+                let sh: Vec<Option<Vec<Vec<(bool, Vec<(u128, u128)>)>>>> = (0..n).map(|p| from_dealer(ph, p).and_then(|d| dec_shares(&d, false))).collect();
+                if sh.iter().any(|x| x.is_none()) { if !(is_and && feat.ands == 0 && sh.iter().all(|x| x.is_none())) { bad.push(format!("`{ph}` from the dealer missing or malformed")); } continue; }
+                let sh: Vec<Vec<(bool, Vec<(u128, u128)>)>> = sh.into_iter().map(|x| x.unwrap().into_iter().map(|mut e| e.remove(0)).collect()).collect();
+                let l = sh[0].len(); if sh.iter().any(|x| x.len() != l) { bad.push(format!("`{ph}`: parties were sent different numbers of shares")); continue; }
+                let reqs: Option<Vec<Vec<Vec<(bool, Vec<(u128, u128)>)>>>> = if is_and { (0..n).map(|p| payloads.iter().find(|(f, t, h, _)| *f == p && *t == n && h == ph).and_then(|x| dec_shares(&x.3, true))).collect() } else { None };
+                for k in 0..l { shares_checked += 1;
+                    for i in 0..n { if sh[i][k].1.len() != n { bad.push(format!("`{ph}` share #{k} of party {i} has {} slots", sh[i][k].1.len())); break; }
+                        for j in 0..n { if i == j { if sh[i][k].1[i] != (0, 0) { bad.push(format!("`{ph}` share #{k}: own slot of party {i} is not zero")); } continue; }
+                            if sh[i][k].1[j].0 != sh[j][k].1[i].1 ^ if sh[i][k].0 { deltas[j] } else { 0 } { if bad.len() < 4 { bad.push(format!("`{ph}` share #{k}: MAC held by {i} != key held by {j} ^ bit*delta_{j}")); } } } }
+                    if let Some(rq) = &reqs { let a = (0..n).fold(false, |x, p| x ^ rq[p][k][0].0); let b = (0..n).fold(false, |x, p| x ^ rq[p][k][1].0); let z = (0..n).fold(false, |x, p| x ^ sh[p][k].0);
+                        if z != (a & b) && bad.len() < 4 { bad.push(format!("AND share #{k}: the returned bits share {z}, the requested pair shares {a} AND {b}")); } }
+                    // the Lean dealer on the decoded bits / keys / deltas must produce exactly these shares (first 3 and last of every batch)
+                    if (k < 3 || k + 1 == l) && sh.iter().all(|x| x[k].1.len() == n) {
+                        let hex = |x: u128| format!("{x:x}"); let bits: String = (0..n).map(|i| if sh[i][k].0 { '1' } else { '0' }).collect();
+                        let keys: Vec<String> = (0..n).flat_map(|i| (0..n).map(|j| hex(sh[i][k].1[j].1)).collect::<Vec<_>>()).collect();
+                        let ans = m.ask(&format!("fpre {n} {} {bits} {}", deltas.iter().map(|d| hex(*d)).collect::<Vec<_>>().join(","), keys.join(",")));
+                        let want = format!("fpre {}", (0..n).map(|i| std::iter::once(if sh[i][k].0 { "1".to_string() } else { "0".to_string() }).chain((0..n).flat_map(|j| vec![hex(sh[i][k].1[j].0), hex(sh[i][k].1[j].1)])).collect::<Vec<_>>().join(",")).collect::<Vec<_>>().join(" "));
+                        if ans != want && disagreements.len() < 4 { disagreements.push(json!({"what": format!("`{ph}` share #{k}: the dealer's macs differ from dealerShare on the same bits, keys and deltas"), "model": ans.chars().take(300).collect::<String>(), "wire": want.chars().take(300).collect::<String>(), "case": desc})); } }
+                }
+            }
+        }
+        if !bad.is_empty() { failures.push(json!({"witness": "C10:dealer", "failure": bad, "case": desc})); }
+        if samples.len() < 2 { samples.push(json!({"case": desc, "dealer_messages": payloads.iter().filter(|x| x.0 == n).count()})); }
+    }
+    dist.insert("dealer_shares_checked".into(), shares_checked);
+    json!({"executions": execs, "distinct_nontrivial": distinct.len(), "distribution": dist, "samples": samples, "model_disagreements": disagreements, "impl_vs_oracle_failures": failures, "model_requests": m.requests})
+}
+
+/// C08d — hostile bytes in the trusted-dealer protocol: every message to or from the dealer, one at a time, replaced by each class of forgery.
+/// The receiver (a party, or the dealer itself) must return — an error or a result — and never panic; nobody may be left blocked once the others have returned.
+static LAST_PANIC: std::sync::Mutex<Option<String>> = std::sync::Mutex::new(None);
+fn c08d(seed: u64, cases: usize, _model_path: &str) -> serde_json::Value {
+    use polytune::verif as v;
+    std::panic::set_hook(Box::new(|info| { let msg = info.payload().downcast_ref::<String>().cloned().or(info.payload().downcast_ref::<&str>().map(|s| s.to_string())).unwrap_or_default();
+        *LAST_PANIC.lock().unwrap() = Some(format!("{msg} at {}", info.location().map(|l| format!("{}:{}", l.file(), l.line())).unwrap_or_default())); }));
+    let mut r = Rng::new(seed); let mut dist: BTreeMap<String, u64> = BTreeMap::new(); let mut distinct = std::collections::BTreeSet::new(); let mut failures = vec![]; let mut samples = vec![]; let mut execs = 0u64;
+    let classes = ["empty", "truncate_half", "truncate_1", "random_same_len", "huge_len_prefix", "append_junk", "zero_prefix", "inner_one_longer", "inner_one_shorter", "inner_len_huge", "count_plus_one"];
+    for case in 0..cases.clamp(4, 12) {
+        let n = if case % 2 == 0 { 2 } else { 3 }; let c = circ::and_chain(n, 2 + case % 3); let p_eval = case % n; let p_out: Vec<usize> = vec![(case / 2) % n];
+        let inputs: Vec<Vec<bool>> = c.input_regs.iter().map(|k| (0..*k).map(|_| r.bool()).collect()).collect();
+        let run_once = |m: Option<exec::Mutator>| -> (Vec<Option<Result<Vec<bool>, String>>>, Vec<(usize, usize, String, Vec<u8>)>, Option<String>) {
+            *LAST_PANIC.lock().unwrap() = None;
+            let (net, chs) = exec::new_net(n + 1, 1024); { let mut nb = net.borrow_mut(); nb.payloads = Some(vec![]); nb.mutate = m; }
+            let sc: Vec<SendCh> = chs.iter().map(SendCh).collect();
+            let futs: Vec<std::pin::Pin<Box<dyn std::future::Future<Output = Result<Vec<bool>, String>>>>> = (0..=n).map(|i| { let (ch, c, inputs, p_out) = (&sc[i], &c, &inputs, &p_out);
+                Box::pin(async move { if i == n { v::fpre_dealer(ch, n).await.map(|_| vec![]) } else { v::mpc_with_dealer(ch.0, c, &inputs[i], n, p_eval, i, p_out).await.map_err(|e| format!("{e:?}")) } }) as std::pin::Pin<Box<dyn std::future::Future<Output = _>>> }).collect();
+            let outs = exec::poll_all(futs, &net); drop(sc); let pl = net.borrow_mut().payloads.take().unwrap_or_default(); (outs, pl, LAST_PANIC.lock().unwrap().take()) };
+        let (_, honest, _) = run_once(None); execs += 1;
+        let targets: Vec<(usize, usize, String)> = { let mut t = vec![]; for (f, to, ph, _) in &honest { if (*f == n || *to == n) && !t.contains(&(*f, *to, ph.clone())) { t.push((*f, *to, ph.clone())); } } t };
+        for (tf, tt, tph) in targets { for cl in classes {
+            let (tph2, cls) = (tph.clone(), cl.to_string()); let mut rr = r.fork(); let hit = std::rc::Rc::new(std::cell::Cell::new(false)); let hit2 = hit.clone();
+            let m: exec::Mutator = Box::new(move |from, to, ph, k, d| { if from != tf || to != tt || ph != tph2 || k != 0 { return Some(d); } hit2.set(true);
+                let inner: Vec<usize> = if d.len() >= 24 { (8..d.len() - 8).filter(|i| { let v = u64::from_le_bytes(d[*i..*i + 8].try_into().unwrap()); v > 0 && v as usize <= (d.len() - i - 8) / 32 }).collect() } else { vec![] };
+                Some(match cls.as_str() { "empty" => vec![], "truncate_half" => d[..d.len() / 2].to_vec(), "truncate_1" => d[..d.len().saturating_sub(1)].to_vec(), "random_same_len" => (0..d.len()).map(|_| rr.next() as u8).collect(),
+                    "huge_len_prefix" => { let mut v = d.clone(); for b in v.iter_mut().take(8) { *b = 0xff; } v } "append_junk" => { let mut v = d.clone(); v.extend([7u8; 9]); v } "zero_prefix" => { let mut v = d.clone(); for b in v.iter_mut().take(8) { *b = 0; } v }
+                    "count_plus_one" => { let mut v = d.clone(); if v.len() >= 8 { let k = u64::from_le_bytes(v[..8].try_into().unwrap()) + 1; v[..8].copy_from_slice(&k.to_le_bytes()); } v }
+                    // the slot vector of one share (count of (mac, key) pairs, 32 bytes each) one pair longer / shorter / claimed huge
+                    "inner_one_longer" => match inner.first() { Some(&i) => { let k = u64::from_le_bytes(d[i..i + 8].try_into().unwrap()) as usize; let mut v = d[..i].to_vec(); v.extend(((k + 1) as u64).to_le_bytes()); v.extend(&d[i + 8..i + 8 + 32 * k]); v.extend([0x55u8; 32]); v.extend(&d[i + 8 + 32 * k..]); v } None => d },
+                    "inner_one_shorter" => match inner.first() { Some(&i) => { let k = u64::from_le_bytes(d[i..i + 8].try_into().unwrap()) as usize; let mut v = d[..i].to_vec(); v.extend(((k - 1) as u64).to_le_bytes()); v.extend(&d[i + 8..i + 8 + 32 * (k - 1)]); v.extend(&d[i + 8 + 32 * k..]); v } None => d },
+                    _ => match inner.first() { Some(&i) => { let mut v = d.clone(); v[i..i + 8].copy_from_slice(&(1u64 << 30).to_le_bytes()); v } None => d } }) });
+            ptverif::alloc_count::reset();
+            let (outs, _, panic) = run_once(Some(m)); if !hit.get() { continue; } execs += 1; let biggest = ptverif::alloc_count::biggest();
+            let victim = if tf == n { format!("party {tt}") } else { "the dealer".to_string() };
+            *dist.entry(format!("class:{cl}")).or_default() += 1; *dist.entry(format!("victim:{}", if tf == n { "party" } else { "dealer" })).or_default() += 1; distinct.insert((n, tf == n, tph.clone(), cl));
+            let desc = json!({"n": n, "dealer": n, "message": format!("{tf}->{tt} `{tph}`"), "class": cl, "victim": victim});
+            if let Some(p) = panic { failures.push(json!({"witness": "C08:dealer-panic", "failure": format!("{} panicked: {p}", if p.contains("fpre.rs") { "the dealer" } else { "a party" }), "case": desc})); }
+            else if outs.iter().any(|o| o.is_none()) { failures.push(json!({"witness": "C08:dealer-hang", "failure": format!("blocked forever: {:?}", outs.iter().enumerate().filter(|(_, o)| o.is_none()).map(|(i, _)| i).collect::<Vec<_>>()), "case": desc})); }
+            if biggest > (1 << 24) { failures.push(json!({"witness": "C08:alloc", "failure": format!("single allocation of {biggest} bytes"), "case": desc})); }
+            if samples.len() < 2 { samples.push(json!({"case": desc, "outcomes": outs.iter().map(|o| format!("{o:?}").chars().take(70).collect::<String>()).collect::<Vec<_>>()})); }
+        } }
+    }
+    json!({"executions": execs, "distinct_nontrivial": distinct.len(), "distribution": dist, "samples": samples, "model_disagreements": [], "impl_vs_oracle_failures": failures})
 }
 
 /// C12 program-order tie: per (party, peer) the order in which sends are issued / completed and receives are issued / completed never
@@ -1486,6 +1622,6 @@ fn main() {
     let seed: u64 = std::env::var("VERIF_SEED").ok().and_then(|s| s.parse().ok()).unwrap_or(1);
     let cases: usize = a.iter().position(|x| x == "--cases").and_then(|i| a.get(i + 1)).and_then(|s| s.parse().ok()).unwrap_or(300);
     let model = a.iter().position(|x| x == "--model").and_then(|i| a.get(i + 1)).cloned().unwrap_or("/verif/lean/.lake/build/bin/ptmodel".into());
-    let out = match prop { "C19" => c19(seed, cases, &model), "C08" => c08(seed, cases, &model, a.iter().any(|x| x == "--thorough")), "C03" => c03(seed, cases, &model), "C04" => c04(seed, cases, &model), "C11" => c11(seed, cases, &model, a.iter().any(|x| x == "--thorough")), "C20" => c20(seed, cases, &model, a.iter().any(|x| x == "--thorough")), "C10" => c10(seed, cases, &model, a.iter().any(|x| x == "--thorough")), "C06" => c06(seed, cases, &model, "C06"), "C07" => c06(seed, cases, &model, "C07"), "C04p" => c06(seed, cases, &model, "C04p"), "C01m" => c01m(seed, cases, &model), "C03m" => c03m(seed, cases, &model), "C10u" => c10u(seed, cases, &model), "C07m" => c07m(seed, cases, &model), "C10m" => c10m(seed, cases, &model), "C10l" => c10l(seed, cases, &model), "C12o" => c12o(seed, cases, &model), "C04m" => c04m(seed, cases, &model), "C18" => c18(seed, cases, &model), "C09" => c09(seed, cases, &model), "C01" => c01(seed, cases, &model, a.iter().any(|x| x == "--thorough")), "C19m" => c19m(seed, cases, &model, a.iter().any(|x| x == "--thorough")), _ => { eprintln!("unknown property"); std::process::exit(2) } };
+    let out = match prop { "C19" => c19(seed, cases, &model), "C08" => c08(seed, cases, &model, a.iter().any(|x| x == "--thorough")), "C03" => c03(seed, cases, &model), "C04" => c04(seed, cases, &model), "C11" => c11(seed, cases, &model, a.iter().any(|x| x == "--thorough")), "C20" => c20(seed, cases, &model, a.iter().any(|x| x == "--thorough")), "C10" => c10(seed, cases, &model, a.iter().any(|x| x == "--thorough")), "C06" => c06(seed, cases, &model, "C06"), "C07" => c06(seed, cases, &model, "C07"), "C04p" => c06(seed, cases, &model, "C04p"), "C01m" => c01m(seed, cases, &model), "C03m" => c03m(seed, cases, &model), "C10u" => c10u(seed, cases, &model), "C07m" => c07m(seed, cases, &model), "C10m" => c10m(seed, cases, &model), "C10l" => c10l(seed, cases, &model), "C10d" => c10d(seed, cases, &model), "C08d" => c08d(seed, cases, &model), "C12o" => c12o(seed, cases, &model), "C04m" => c04m(seed, cases, &model), "C18" => c18(seed, cases, &model), "C09" => c09(seed, cases, &model), "C01" => c01(seed, cases, &model, a.iter().any(|x| x == "--thorough")), "C19m" => c19m(seed, cases, &model, a.iter().any(|x| x == "--thorough")), _ => { eprintln!("unknown property"); std::process::exit(2) } };
     println!("{}", serde_json::to_string_pretty(&out).unwrap());
 }
